@@ -316,9 +316,28 @@ func (d *Document) generateAppProperties(properties *DocumentProperties) error {
 	return nil
 }
 
+// corePropertiesIn 读取核心属性时使用的结构。
+// CoreProperties 的标签带有命名空间前缀（cp:coreProperties、dc:title……），只适用于写出：encoding/xml 解析时按
+// 本地名称匹配元素，用带前缀的标签解析本库自己写出的 core.xml 会直接失败，已保存的属性因此全部读不回来。
+type corePropertiesIn struct {
+	XMLName     xml.Name `xml:"coreProperties"`
+	Title       *DCText  `xml:"title"`
+	Subject     *DCText  `xml:"subject"`
+	Creator     *DCText  `xml:"creator"`
+	Keywords    *CPText  `xml:"keywords"`
+	Description *DCText  `xml:"description"`
+	Language    *DCText  `xml:"language"`
+	Category    *CPText  `xml:"category"`
+	Version     *CPText  `xml:"version"`
+	Revision    *CPText  `xml:"revision"`
+	Created     *DCDate  `xml:"created"`
+	Modified    *DCDate  `xml:"modified"`
+	LastPrinted *DCDate  `xml:"lastPrinted"`
+}
+
 // parseCoreProperties 解析核心属性
 func (d *Document) parseCoreProperties(data []byte, properties *DocumentProperties) error {
-	var coreProps CoreProperties
+	var coreProps corePropertiesIn
 	if err := xml.Unmarshal(data, &coreProps); err != nil {
 		return err
 	}
@@ -388,8 +407,46 @@ func (d *Document) addPropertiesContentTypes() {
 
 // addPropertiesRelationships 添加属性相关的关系
 func (d *Document) addPropertiesRelationships() {
-	// 这些关系通常在包级别的 _rels/.rels 中定义
-	// 简化处理，实际实现时需要管理包级别的关系
+	// 属性部件由包级别的关系（_rels/.rels）定位：没有关系指向的部件不会被任何读取方发现
+	d.addPackageRelationship("http://schemas.openxmlformats.org/package/2006/relationships/metadata/core-properties", "docProps/core.xml")
+	d.addPackageRelationship("http://schemas.openxmlformats.org/officeDocument/2006/relationships/extended-properties", "docProps/app.xml")
+}
+
+// addPackageRelationship 在包级别关系（_rels/.rels）中登记一个部件。
+// 一个包最多只能有一个该类型的关系：已存在该类型的关系时（重复调用，或打开的文档本身带有）不再添加；
+// 已有的关系（包括定位主文档的 officeDocument 关系）保持不变。
+func (d *Document) addPackageRelationship(relType, target string) {
+	for i := range d.relationships.Relationships {
+		if d.relationships.Relationships[i].Type == relType {
+			return
+		}
+	}
+
+	d.relationships.Relationships = append(d.relationships.Relationships, Relationship{
+		ID:     d.nextPackageRelationshipID(),
+		Type:   relType,
+		Target: target,
+	})
+}
+
+// nextPackageRelationshipID 返回一个尚未被包级别关系使用的关系ID。
+// 打开的文档已有的关系ID可以是任意的，因此必须检查候选ID是否已被占用。
+func (d *Document) nextPackageRelationshipID() string {
+	n := len(d.relationships.Relationships) + 1
+	for {
+		id := fmt.Sprintf("rId%d", n)
+		used := false
+		for i := range d.relationships.Relationships {
+			if d.relationships.Relationships[i].ID == id {
+				used = true
+				break
+			}
+		}
+		if !used {
+			return id
+		}
+		n++
+	}
 }
 
 // countWords 统计字数
